@@ -1,5 +1,6 @@
 import Ecal.Drivers.Util
 import Ecal.Model.PrattTable
+import Ecal.Lemmas.C08RealParse
 /-!
 Driver of C08. Payload (space separated; see go/cmd/harness/c08.go):
   `<src-hex> <flags: 1 = evaluated, 2 = FormatFiles run> <node>` with
@@ -247,6 +248,8 @@ def endsWithBareReturn (n : Node) : Bool :=
 def runCase (payload : String) : String :=
   -- the format tool on a directory tree (FormatFiles / Format): what the property demands is fixed
   if payload.startsWith "FMT " then "fmt=ok\tnt=1" else
+  -- not a case: reports the value of the hypothesis `RP.tablesAgree` of the theorems on the real parser model
+  if payload = "TABLES" then "UNSUP\tskip=1\ttables_agree=" ++ toString Ecal.C08.RP.tablesAgree else
   match payload.splitOn " " with
   | _src :: flags :: rest =>
     let ev := flags
